@@ -299,6 +299,9 @@ def drive(args, check_id, cfg, tier, seed, repo, tmp, t_start):
         log("replay does not reproduce the recorded violation: " + detail)
         return 0
 
+    # replays/<ID>/ holds the replay files of the most recent run only.
+    shutil.rmtree(os.path.join(VERIF, "replays", check_id), ignore_errors=True)
+
     known = load_known(check_id)
     known_sigs = [e["signature"] for e in known if e.get("status") == "known"]
     total = args.runs or cfg[tier]
